@@ -27,13 +27,126 @@ func reg(id string, quick, thorough []string, anchors, witnesses []string, bound
 const digp = "go.uber.org/dig."
 
 func init() {
-	reg("C05", []string{"verifC05u"}, []string{"verifC05u"},
-		[]string{"go.uber.org/dig/internal/graph.IsAcyclic", "go.uber.org/dig/internal/graph.isAcyclic"},
-		[]string{"acyclic", "cyclic", "cycle-len>=3"},
-		"unit: every digraph with n<=4 nodes (symbolic adjacency matrix)", "",
-		"S1-S9 stubs; the graph is presented through a harness implementation of graph.Graph").FuelIsViolation = true
-	reg("C01", []string{"verifC01"}, nil,
-		[]string{"(go.uber.org/dig.paramSingle).Build", "(*go.uber.org/dig.constructorNode).Call", "(*go.uber.org/dig.Scope).Invoke"},
-		[]string{"invoke-ok", "cross-scope-arg", "optional-zero", "optional-present", "bystander"},
-		"2 constructors (<=1 param, 1 result), <=2 scopes, param objects, names {\"\",a}, optional, Export, 1 Invoke with <=2 params", "")
+	d := func(names ...string) []string {
+		var out []string
+		for _, n := range names {
+			out = append(out, n)
+		}
+		return out
+	}
+	const (
+		psBuild   = "(go.uber.org/dig.paramSingle).Build"
+		poBuild   = "(go.uber.org/dig.paramObject).Build"
+		plBuild   = "(go.uber.org/dig.paramList).BuildList"
+		pgBuild   = "(go.uber.org/dig.paramGroupedSlice).Build"
+		cnCall    = "(*go.uber.org/dig.constructorNode).Call"
+		dnCall    = "(*go.uber.org/dig.decoratorNode).Call"
+		invoke    = "(*go.uber.org/dig.Scope).Invoke"
+		provide   = "(*go.uber.org/dig.Scope).provide"
+		decorate  = "(*go.uber.org/dig.Scope).Decorate"
+		extract   = "(go.uber.org/dig.resultList).ExtractList"
+		rsExtract = "(go.uber.org/dig.resultSingle).Extract"
+		roExtract = "(go.uber.org/dig.resultObject).Extract"
+		rgExtract = "(go.uber.org/dig.resultGrouped).Extract"
+		isAcyclic = "go.uber.org/dig/internal/graph.IsAcyclic"
+	)
+	stubs := "stubs S1-S9 of DESIGN.md §3.5 (map order = insertion order, reflect/fmt models, rand.Perm = identity, fixed time, synthetic runtime.FuncForPC)"
+	uf := "user functions are reflect.MakeFunc values over symbolic plain types (*vT with a symbolic identity among 16) unless stated; histories are the stated skeletons only"
+
+	reg("C01", d("verifC01a", "verifC01b", "verifC01c", "verifC01d"), nil,
+		d(psBuild, poBuild, plBuild, cnCall, extract, rsExtract, roExtract, invoke, dnCall),
+		d("invoke-ok", "cross-scope-arg", "optional-zero", "optional-present", "bystander", "decorated-arg", "invoke-ok-2deps"),
+		"4 skeletons: (a) 2 ctors <=1 param, param objects, optional, <=2 scopes, 1 Invoke; (b) 2 ctors positional, Export, <=2 scopes, 2 Invokes; (c) 1 ctor with <=2 results, result objects, names {\"\",a}, Invoke with <=2 params; (d) 3 registrations incl. <=1 decorator, <=2 scopes", "",
+		stubs, uf, "profiles b-d assume the Invoke has no missing dependency; produced single keys assumed pairwise distinct (duplicates are C09)")
+	reg("C02", d("verifC02a", "verifC02b", "verifC02c", "verifC02d"), nil,
+		d(cnCall, dnCall, psBuild, pgBuild),
+		d("invoke-ok", "decorated-arg", "group-nonempty", "cross-scope-arg", "invoke-on-cycle"),
+		"4 skeletons: (a) 2 ctors, Export, <=2 scopes (also created late), 2 Invokes; (b) 3 registrations incl. <=1 decorator, 2 Invokes; (c) 2 ctors with group results/params, 2 Invokes; (d) 3 registrations incl. a decorator with an extra dependency or a second key", "",
+		stubs, uf, "no missing dependencies; distinct single keys; no failing user functions")
+	reg("C03", d("verifC03a", "verifC03b"), nil,
+		d(cnCall, invoke, provide, "go.uber.org/dig.Visualize", "(*go.uber.org/dig.Scope).String"),
+		d("invoke-ok", "bystander", "missing", "soft-group-arg", "optional-zero"),
+		"(a) 3 ctors <=1 param over <=2 scopes, String+Visualize after every registration, 1 Invoke; (b) 2 ctors with optional / group / soft group params, 1 Invoke", "",
+		stubs, uf)
+	reg("C04", d("verifC04a", "verifC04b"), nil,
+		d("go.uber.org/dig.findMissingDependencies", "go.uber.org/dig.shallowCheckDependencies", "go.uber.org/dig.newErrMissingTypes", "go.uber.org/dig.isFieldOptional", psBuild),
+		d("missing", "optional-zero", "optional-present", "invoke-ok"),
+		"(a) 2 ctors, <=2 scopes, optional fields; (b) chain of 3 ctors in one scope, every edge optional or required, 1 Invoke", "",
+		stubs, uf)
+	reg("C05", d("verifC05u", "verifC05sa", "verifC05sb", "verifC05sc"), nil,
+		d(isAcyclic, "go.uber.org/dig/internal/graph.isAcyclic", "(*go.uber.org/dig.graphHolder).EdgesFrom", provide, invoke, "(*go.uber.org/dig.graphHolder).Rollback"),
+		d("acyclic", "cyclic", "cycle-len>=3", "cycle-rejected", "cycle-deferred", "invoke-on-cycle"),
+		"unit: every digraph with n<=4 nodes (symbolic adjacency matrix); system: (sa) 2 ctors with 1 param/1 result of symbolic type, Export, <=2 scopes; (sb) same with DeferAcyclicVerification and 2 Invokes; (sc) group and optional edges, defer free", "",
+		stubs, uf, "exceeding 600 frames / 2e7 steps counts as non-termination and is replayed natively")
+	props["C05"].FuelIsViolation = true
+	reg("C06", d("verifC06a", "verifC06b"), nil,
+		d(provide, "(*go.uber.org/dig.graphHolder).Rollback", decorate, "(*go.uber.org/dig.provideOptions).Validate"),
+		d("after-rejection-compared", "rejected-cycle", "rejected-other", "rejected-bad-0", "rejected-bad-6", "rejected-decorator"),
+		"differential: container A gets a rejected candidate at a free position, container B does not; (a) candidate = generated ctor rejected for a cycle or duplicate, <=2 scopes, Export; (b) candidate = one of 12 malformed inputs or a duplicate decorator; then 1 registration and 1 Invoke compared", "",
+		stubs, uf)
+	reg("C07", d("verifC07a", "verifC07b"), nil,
+		d(cnCall, dnCall, extract, invoke),
+		d("user-failure", "ctor-error", "panic-recovered", "panic-propagated", "retried", "decorated-arg"),
+		"(a) 2 ctors, each execution may succeed / return an error / panic, RecoverFromPanics free, 2 Invokes; (b) 2 registrations incl. <=1 decorator that may fail, 2 Invokes", "",
+		stubs, uf)
+	reg("C08", d("verifC08a"), nil,
+		d("(*go.uber.org/dig.Scope).Scope", "(*go.uber.org/dig.Scope).storesToRoot", provide, psBuild, "(*go.uber.org/dig.Scope).newGraphNode"),
+		d("cross-scope-arg", "missing", "invoke-ok", "bystander"),
+		"2 ctors with free scope and Export over <=3 scopes of free shape (created before or after the Provides), 1 Invoke from a free scope", "",
+		stubs, uf)
+	reg("C09", d("verifC09a", "verifC09b"), nil,
+		d("(go.uber.org/dig.connectionVisitor).checkKey", "go.uber.org/dig.newResultSingle", rsExtract, "go.uber.org/dig.newParamObjectField"),
+		d("duplicate-key", "invoke-ok", "missing"),
+		"(a) 2 ctors with <=2 results, names {\"\",a} via option or result-object tag; (b) As(vI0) / As(vI0,vI1) on concrete *vA results, groups, consumers asking *vA / vI0 / vI1", "",
+		stubs, uf)
+	reg("C10", d("verifC10a", "verifC10b"), nil,
+		d(pgBuild, "(go.uber.org/dig.paramGroupedSlice).callGroupProviders", rgExtract, "go.uber.org/dig.parseGroupString", "(*go.uber.org/dig.Scope).getValueGroup"),
+		d("group-nonempty", "invoke-ok", "bystander"),
+		"(a) 2 feeders placed freely in <=2 scopes with Export, 1 consumer from a free scope; (b) flatten results of length 0-2, a feeder added between two requests", "",
+		stubs, uf, "group order is compared as a multiset")
+	reg("C11", d("verifC11a", "verifC11b"), nil,
+		d(pgBuild, poBuild, "go.uber.org/dig.parseGroupString"),
+		d("soft-group-arg", "soft-group-nonempty", "invoke-ok"),
+		"(a) 1 ctor with <=2 results (group and single), consumer object with 2 fields in free order (soft group, hard dependency); (b) 2 feeders, 2 Invokes (the first may run feeders, the second consumes softly)", "",
+		stubs, uf)
+	reg("C12", d("verifC12a", "verifC01d", "verifC02d"), nil,
+		d(dnCall, "(go.uber.org/dig.paramSingle).buildWithDecorators", decorate, "go.uber.org/dig.findResultKeys"),
+		d("decorated-arg", "invoke-ok", "provide-rejected"),
+		"2-3 registrations of which <=2 decorators at free levels of <=2 scopes, 2 Invokes from free scopes; decorators with an extra dependency or a second key", "",
+		stubs, uf)
+	reg("C13", d("verifC13a", "verifC07a"), nil,
+		d("go.uber.org/dig.RootCause", "go.uber.org/dig.IsCycleDetected", invoke, cnCall, "(go.uber.org/dig.errConstructorFailed).Unwrap"),
+		d("invoked-fn-error", "ctor-error", "panic-recovered", "panic-propagated", "missing"),
+		"2 ctors + invoked function, each may fail by error or panic, param objects, <=2 scopes, RecoverFromPanics free", "",
+		stubs, uf)
+	reg("C14", d("verifC14a"), nil,
+		d(provide, decorate, invoke, "go.uber.org/dig.newParamObjectField", "go.uber.org/dig.newResultObjectField", "go.uber.org/dig.parseGroupString", "go.uber.org/dig.isFieldOptional", "(*go.uber.org/dig.provideOptions).Validate", "go.uber.org/dig.Visualize"),
+		d("input-accepted", "input-rejected"),
+		"one input from a grammar of 30 value/function shapes x 25 struct tags x 14 option sets, passed to Provide / Decorate / Invoke before or after 1 registration, then String, Visualize and 1 Invoke; twin container without the input", "",
+		stubs, "types of the grammar are concrete (declared or reflect.StructOf/FuncOf)")
+	reg("C15", d("verifC15a", "verifC15b"), nil,
+		d("go.uber.org/dig.newParamObject", "go.uber.org/dig.newResultObject", "go.uber.org/dig.newParamList", poBuild, roExtract),
+		d("encoding-differs", "invoke-ok"),
+		"differential: the same history with every function re-encoded (positional <-> object field at depth 1/2, option <-> tag, +variadic); (a) 1 ctor + Invoke with names/optional; (b) 1 ctor with 2 results and groups", "",
+		stubs, uf)
+	reg("C16", d("verifC16a", "verifC16b"), nil,
+		d("(*go.uber.org/dig.Scope).Scope", "(*go.uber.org/dig.Scope).newGraphNode", provide, invoke),
+		d("permuted", "scopes-moved", "order-compared-ok"),
+		"differential over 3 containers: A as drawn, B with all scopes created first and the registrations permuted, C with DeferAcyclicVerification; (a) 2 registrations with group params, <=2 scopes; (b) 3 registrations incl. a decorator", "",
+		stubs, uf, "histories whose registrations are all accepted in A")
+	reg("C17", d("verifC17a", "verifC17b"), nil,
+		d("go.uber.org/dig.dryInvoker", cnCall, invoke),
+		d("dry-compared", "invoke-ok", "missing", "provide-rejected"),
+		"differential: DryRun(true) container vs normal container; (a) 2 registrations incl. <=1 decorator, optional fields, <=2 scopes; (b) 1 ctor with groups/flatten/names/result objects", "",
+		stubs, uf, "user functions never fail")
+	reg("C18", d("verifC18a", "verifC18b", "verifC18c"), nil,
+		d("(go.uber.org/dig.paramSingle).DotParam", "(go.uber.org/dig.paramObject).DotParam", "(go.uber.org/dig.resultSingle).DotResult", "(go.uber.org/dig.resultGrouped).DotResult", provide, decorate, invoke),
+		d("provide-info", "decorate-info", "invoke-info", "info-optional", "info-group", "info-2outputs", "rejected-info-untouched"),
+		"one signature per call from the descriptor grammar: <=2 params (positional, object field, nested object field, names, optional, group, soft), <=2 results (positional/object, names, groups, flatten, As), variadic; FillProvideInfo / FillDecorateInfo / FillInvokeInfo; a rejected second call", "",
+		stubs, uf, "distinct-function => distinct-ID is not decided (IDs are code pointers fabricated by the engine)")
+	reg("C20", d("verifC20a", "verifC20b"), nil,
+		d(cnCall, dnCall, "go.uber.org/dig.WithProviderCallback"),
+		d("callback-ok", "callback-error", "callback-panic", "callback-runtime", "callback-silent"),
+		"(a) 2 ctors with callbacks on a free subset, faults free (ok/error/panic on executions 1,2), RecoverFromPanics free, 2 Invokes; (b) <=1 decorator with callback, <=2 scopes; clock readings symbolic (every user function advances the clock by a symbolic 0<=dt<2^40)", "",
+		stubs, uf, "CallbackInfo.Name is not checked for MakeFunc functions (they share one code pointer)")
 }
